@@ -25,11 +25,21 @@ def step (j : Json) : Option String := do
         | _ => none
       pure ({ kind := kind, pos := ← jNat p } : Task)
     | _ => none
-  let cfg : Cfg := { bus := bus, serials := serials, draws := draws, tasks := tasks }
+  -- the configured terminal_addr_range of this master; none configured: the library's default (regenerated constants)
+  let cfg0 : Cfg := { bus := bus, serials := serials, draws := draws, tasks := tasks }
+  let cfg : Cfg ← match field j "range" with
+    | none => pure cfg0
+    | some r =>
+      if r.isNull then pure cfg0 else
+      match ← jArr r with
+      | [lo, hi] => pure { cfg0 with lo := ← jNat lo, hi := ← jNat hi }
+      | _ => none
   let st := run cfg sched
   let ids := List.range tasks.length
   let serialDone := ids.all fun i => (taskOf cfg i).kind != .serial || st.pc i == .done
-  let m := if !st.starved && serialDone then
+  -- (a run stopped because the PRNG script ran out in an `initialize` task may have completed its scan before; if it ran out
+  -- before the scan's tasks were started the scan never completes)
+  let m := if serialDone && !(initSt cfg).starved then
       ",".intercalate ((st.map.mergeSort (fun a b => a.1 ≤ b.1)).map fun e => s!"{e.1}:{e.2}")
     else "-"
   let status := if st.starved then "starved" else if st.queue.isEmpty then "finished" else "pending"
